@@ -18,6 +18,7 @@ pub assume_specification [Duration::as_millis] (d: &Duration) -> (r: u128) ensur
 pub assume_specification [Duration::as_secs] (d: &Duration) -> (r: u64) ensures r == dur_ns(*d) / 1_000_000_000;
 pub assume_specification [Duration::from_millis] (m: u64) -> (r: Duration) ensures dur_ns(r) == m as nat * 1_000_000;
 pub assume_specification [Duration::from_secs] (m: u64) -> (r: Duration) ensures dur_ns(r) == m as nat * 1_000_000_000;
+pub assume_specification [u64::abs_diff] (a: u64, b: u64) -> (r: u64) ensures r == (if a >= b { a - b } else { b - a });
 pub assume_specification [std::time::UNIX_EPOCH] -> std::time::SystemTime;
 pub assume_specification [std::time::SystemTime::now] () -> (r: std::time::SystemTime);
 pub assume_specification [std::time::SystemTime::duration_since] (t: &std::time::SystemTime, earlier: std::time::SystemTime) -> (r: Result<Duration, std::time::SystemTimeError>)
@@ -54,7 +55,9 @@ pub open spec fn ms_granular(d: Duration) -> bool { dur_ns(d) % 1_000_000 == 0 &
 fn ttl_to_query_time_arg(duration: &Duration) -> (r: u128)
     ensures r == dur_ms(*duration), //# expiry.ttl.to_query_prints_ms
 {
+    let printed = (
 //@@ epilogue
+    ); printed as u128
 }
 //@@ end
 
@@ -65,7 +68,9 @@ fn ttl_to_query_time_arg(duration: &Duration) -> (r: u128)
 fn ttl_serialize_time_arg(duration: &Duration) -> (r: u128)
     ensures r == dur_ms(*duration), //# expiry.ttl.serialize_prints_ms
 {
+    let printed = (
 //@@ epilogue
+    ); printed as u128
 }
 //@@ end
 
